@@ -37,7 +37,13 @@ TFinish == /\ IsEv("Finish")
            /\ verdict' = (IF Rec[l].ok THEN "ok" ELSE "err")
            /\ Obs(Rec[l].syms, sym')
 
-TNext == TReset \/ TWrite \/ TFinish
+\* a flush() call of the driver: no variable of the specification moves; the driver logs how many bytes the sink
+\* holds before and after (equal, or the trace is rejected here)
+TFlush == /\ IsEv("Flush")
+          /\ Flush
+          /\ Rec[l].before = Rec[l].after
+
+TNext == TReset \/ TWrite \/ TFinish \/ TFlush
 TSpec == TInit /\ [][TNext]_tvars
 
 Accepted ==
